@@ -1,8 +1,85 @@
-/- Driver handler owned by property C14: `c14 <args…>` requests. -/
+/- Driver handler owned by property C14: `c14 <args…>` requests.
+
+   `c14 fco <kinds> <edges>`
+     kinds : one char per node id (`c` constant, `f` function, `x` context, `o` other)
+     edges : `k:t,t,t;k:;…` (keys ascending, targets ascending) or `-` for no keys
+   answers
+     `comps=<a,b;c;…> out=<ord:a,b,…|rec:n|ctx:n> valid=<0|1> cg=<log:a,b,…|panic|fuel|none> once=<0|1>`
+   where `comps` is `tarjan`, `out` is `find_compilation_order`, `valid` is the
+   verified checker on `comps`, `cg` the initialiser log of the codegen loop.
+   A model failure is `panic` / `fuel` in the respective field.
+
+   `c14 cert <kinds> <edges> <comps>` runs the verified checker `validOrder` on
+   components computed elsewhere (the implementation's): `valid=<0|1>`. -/
 import Driver.Util
+import RotoV.Model.Tarjan
 
 namespace Driver.C14
+open RotoV.Tarjan
 
-def handle (_args : List String) : String := "bad-op"
+def parseKind : Char → Option Kind
+  | 'c' => some .const
+  | 'f' => some .func
+  | 'x' => some .ctx
+  | 'o' => some .other
+  | _ => none
+
+def parseNats (s : String) : Option (List Nat) :=
+  if s.isEmpty then some [] else (s.splitOn ",").mapM String.toNat?
+
+def parseEdge (s : String) : Option (Nat × List Nat) :=
+  match s.splitOn ":" with
+  | [k, ts] => do
+    let k ← k.toNat?
+    let ts ← parseNats ts
+    pure (k, ts)
+  | _ => none
+
+def parseEdges (s : String) : Option (List (Nat × List Nat)) :=
+  if s == "-" then some [] else ((s.splitOn ";").filter (· ≠ "")).mapM parseEdge
+
+def showNats (l : List Nat) : String := ",".intercalate (l.map toString)
+
+def showFail : Fail → String
+  | .panic => "panic"
+  | .outOfFuel => "fuel"
+
+def handle (args : List String) : String :=
+  match args with
+  | ["fco", kinds, edges] =>
+    match kinds.toList.mapM parseKind, parseEdges edges with
+    | some ks, some es =>
+      let g : Graph := ⟨es, fun n => ks.getD n .other⟩
+      let comps := tarjan g
+      let compsS := match comps with
+        | .ok cs => ";".intercalate (cs.map showNats)
+        | .error e => showFail e
+      let validS := match comps with
+        | .ok cs => if validOrder g cs then "1" else "0"
+        | .error _ => "0"
+      let out := findCompilationOrder g
+      let outS := match out with
+        | .ok (.order o) => "ord:" ++ showNats o
+        | .ok (.recursive c) => s!"rec:{c}"
+        | .ok (.usesContext c) => s!"ctx:{c}"
+        | .error e => showFail e
+      let (cgS, onceS) := match out with
+        | .ok (.order o) =>
+          match codegen g o with
+          | .ok st => ("log:" ++ showNats st.log,
+              if nodupB st.log && (g.keys.filter g.isConst).all st.log.contains then "1" else "0")
+          | .error e => (showFail e, "0")
+        | _ => ("none", "1")
+      s!"comps={compsS} out={outS} valid={validS} cg={cgS} once={onceS}"
+    | _, _ => "bad-op"
+  | ["cert", kinds, edges, comps] =>
+    -- the verified checker on the *implementation's* components
+    match kinds.toList.mapM parseKind, parseEdges edges,
+          (if comps == "-" then some [] else (comps.splitOn ";").mapM parseNats) with
+    | some ks, some es, some cs =>
+      let g : Graph := ⟨es, fun n => ks.getD n .other⟩
+      if validOrder g cs then (if validScc g cs then "valid=1" else "valid=1-but-not-scc") else "valid=0"
+    | _, _, _ => "bad-op"
+  | _ => "bad-op"
 
 end Driver.C14
